@@ -17,37 +17,96 @@ GEOM_KMAX = 512
 
 # ---------------------------------------------------------------------------------------------------------
 
+class Dis:
+    """A disagreement (the runner hands only non-dict objects on to `search`)."""
+    def __init__(self, d):
+        self.d = dict(d)
+
+    def get(self, k, default=None):
+        return self.d.get(k, default)
+
+    def __getitem__(self, k):
+        return self.d[k]
+
+    def __contains__(self, k):
+        return k in self.d
+
+    def to_json(self):
+        return self.d
+
+
 def _fmt(l):
     return " ".join(map(str, l)) if l else "-"
 
 
+class _TooManyHangs(Exception):
+    pass
+
+
+def _guard(dis, fn, *args):
+    """Call a helper of the real code; an exception or an endless loop becomes a disagreement (returns None).
+    After three hangs the enumeration is abandoned (each one costs its whole time-out)."""
+    try:
+        with L.alarm(1, "%s%r" % (fn.__name__, args)):
+            return fn(*args)
+    except Exception as e:
+        if isinstance(e, L.Hang):
+            _guard.hangs = getattr(_guard, "hangs", 0) + 1
+            if _guard.hangs >= 3:
+                dis.append({"kind": "elaboration", "k": None, "what": "%s%r: %r" % (fn.__name__, args, e)})
+                raise _TooManyHangs()
+        if len([d for d in dis if d.get("kind") == "elaboration"]) < 5:
+            dis.append({"kind": "elaboration", "k": args[0] if fn.__name__ == "compute_m_n" else None,
+                        "what": "%s%r: %r" % (fn.__name__, args, e)})
+        return None
+
+
 def geometry(ctx):
-    """All geometry helpers, every k in 1..512 (through `call`)."""
+    """All geometry helpers, every k in 1..512 (through `call`).  The lengths n and strides p that are compared come
+    from k through the Hamming bound (c18lib.ref_m_n) and from n itself, never from what the helpers return."""
     E = L.ecc()
     dis = []
     reqs, want, what = [], [], []
-    ns = set()
+    _guard.hangs = 0
+    try:
+        ncover = _enumerate_geometry(E, dis, reqs, want, what)
+    except _TooManyHangs:
+        ncover = 0
+    return _compare_geometry(ctx, dis, reqs, want, what, ncover)
+
+
+def _enumerate_geometry(E, dis, reqs, want, what):
+    ns = set(range(1, 65))
     for k in range(1, GEOM_KMAX + 1):
-        try:
-            m, n = E.compute_m_n(k)
-        except Exception as e:
-            dis.append({"kind": "elaboration", "k": k, "what": "compute_m_n raised %r" % (e,)})
+        r = _guard(dis, E.compute_m_n, k)
+        ns.add(L.ref_m_n(k)[1])
+        if r is None:
             continue
-        reqs.append("mn %d" % k); want.append("%d %d" % (m, n)); what.append(("compute_m_n", (k,)))
-        ns.add(n)
-    ns |= set(range(1, 65))
+        reqs.append("mn %d" % k); want.append("%d %d" % tuple(r)); what.append(("compute_m_n", (k,)))
     ncover = 0
     for n in sorted(ns):
-        sp = E.compute_syndrome_positions(n)
-        reqs.append("synpos %d" % n); want.append(_fmt(sp)); what.append(("compute_syndrome_positions", (n,)))
-        reqs.append("datapos %d" % n); want.append(_fmt(E.compute_data_positions(n))); what.append(("compute_data_positions", (n,)))
-        ps = [2 ** i for i in range(len(sp))]
+        sp = _guard(dis, E.compute_syndrome_positions, n)
+        if sp is not None:
+            reqs.append("synpos %d" % n); want.append(_fmt(sp)); what.append(("compute_syndrome_positions", (n,)))
+        dp = _guard(dis, E.compute_data_positions, n)
+        if dp is not None:
+            reqs.append("datapos %d" % n); want.append(_fmt(dp)); what.append(("compute_data_positions", (n,)))
+        ps = [1 << i for i in range(n.bit_length() + 1)]      # every power of two <= n and the first one beyond
         if n <= 40:
             ps = list(range(1, n + 2))           # every stride, not only the powers of two the callers use
         for p in ps:
-            reqs.append("cover %d %d" % (n, p)); want.append(_fmt(E.compute_cover_positions(n, p)))
+            cp = _guard(dis, E.compute_cover_positions, n, p)
+            if cp is None:
+                continue
+            reqs.append("cover %d %d" % (n, p)); want.append(_fmt(cp))
             what.append(("compute_cover_positions", (n, p)))
             ncover += 1
+    return ncover
+
+
+def _compare_geometry(ctx, dis, reqs, want, what, ncover):
+    if not reqs:
+        return dis
     ans = ctx.lean.call_batch(reqs)
     bad = 0
     for r, w, a, wh in zip(reqs, want, ans, what):
@@ -56,7 +115,7 @@ def geometry(ctx):
             if bad <= 3:
                 dis.append({"kind": "correspondence", "what": "%s%r" % wh, "impl": w, "model": a})
     ctx.cov.add_cases("geometry helpers, all k in 1..%d (n=m+k and n in 1..64; %d cover sets)" % (GEOM_KMAX, ncover),
-                      len(reqs), len(reqs), exhaustive=True)
+                      len(reqs), len(reqs), exhaustive=not any(d.get("kind") == "elaboration" for d in dis))
     # sensitivity self-test of the comparison: two perturbed model answers must be flagged
     pert = list(ans)
     pert[0] = pert[0] + "0"
@@ -73,11 +132,17 @@ def netlist_jobs(tier, rng=None):
     # remaining widths from the seed
     others = [k for k in range(9, 129) if k not in LARGE_KS]
     if quick:
+        # always: the widths just past a perfect code (k = 2^m - m: a new check bit appears, n = 2^m + m)
+        J += [(L.job_large, (k, 1, 60), {"garbage": 8, "fixed": False, "selfcheck": False}) for k in (12, 27, 58, 121)]
+        others = [k for k in others if k not in (12, 27, 58, 121)]
         others = sorted(rng.sample(others, 4)) if rng is not None else []
     for k in others:
         J.append((L.job_large, (k, 1, 40 if quick else 80), {"garbage": 8, "fixed": False, "selfcheck": False}))
-    for k in range(1, (6 if quick else 8) + 1):
+    for k in range(1, 9):
         J.append((L.job_small, (k,), {}))
+    # encoder + decoder inside one module (the way the test bench / memory controllers instantiate them)
+    for k in (3, 15, 33, 64) if quick else (3, 8, 15, 33, 64, 72, 128):
+        J.append((L.job_loopback, (k, 1 if quick else 3), {}))
     for k in LARGE_KS:
         if quick:
             J.append((L.job_large, (k, 3, 150 if k >= 100 else 300), {"selfcheck": k < 100}))
@@ -126,6 +191,11 @@ def correspond(ctx):
     ctx.rule = ("one case = one call of a geometry helper, or one evaluation of the encoder/decoder netlist compared with "
                 "the Lean model; non-trivial = the decoder raised sec or ded (an error was present)")
     dis = geometry(ctx)
+    if any("no result within" in d.get("what", "") for d in dis):
+        # a geometry helper no longer terminates: the constructors call it, so do not elaborate the netlists
+        ctx.log("a geometry helper hangs; netlist jobs skipped")
+        ctx.c18_dis = [Dis(d) for d in dis]
+        return ctx.c18_dis
     jobs = netlist_jobs(ctx.tier, ctx.rng)
     cc = corpus_cases()
     for k in sorted({c["k"] for c in cc}):       # one job per width (netlist elaboration dominates)
@@ -134,11 +204,12 @@ def correspond(ctx):
             jobs.insert(0, job)
         else:
             jobs.append(job)
-    dis += merge(ctx, L.run_pool(ctx.seed, jobs))
+    dis += merge(ctx, L.run_pool(ctx.seed, jobs, timeout=100 if ctx.tier == "quick" else 1200))
     dis.sort(key=lambda d: (d.get("k") if isinstance(d.get("k"), int) else 0, d.get("kind") != "monitor"))
     for d in dis[:5]:
         ctx.log("DISAGREEMENT", json.dumps(d, default=str)[:300])
-    return dis
+    ctx.c18_dis = [Dis(d) for d in dis]
+    return ctx.c18_dis
 
 
 # ---------------------------------------------------------------------------------------------------------
@@ -146,6 +217,7 @@ def correspond(ctx):
 def search(ctx, disagreements, proof_info):
     """Failing-input search on the real code with the model-independent oracle only."""
     # 1. a monitor (oracle) that already fired during correspondence (smallest width first)
+    disagreements = list(disagreements) or list(getattr(ctx, "c18_dis", []))
     disagreements = sorted(disagreements, key=lambda d: d.get("k") if isinstance(d.get("k"), int) else 1 << 30)
     for d in disagreements:
         if d.get("kind") == "monitor" and "data" in d:
@@ -153,8 +225,9 @@ def search(ctx, disagreements, proof_info):
                     "encoder_out": d.get("codeword"), "decoder_out(o,sec,ded)": d.get("out"), "oracle": d["what"],
                     "format": "flips = bit positions of the n+1-bit code word that were inverted (0 = overall parity bit)"}
     for d in disagreements:
-        if d.get("kind") == "elaboration":
-            return {"k": d.get("k"), "oracle": "no encoder/decoder exists for this supported width: " + d["what"]}
+        if d.get("kind") in ("elaboration", "timeout", "exception"):
+            return {"k": d.get("k"), "last_inputs": d.get("last_inputs"),
+                    "oracle": "no usable encoder/decoder for this supported width (%s): %s" % (d["kind"], d["what"])}
         if d.get("kind") == "monitor":
             return {"k": d.get("k"), "oracle": d["what"]}
     # 2. oracle-only sweep: widths named by the disagreements first, then the whole grid, then all k in 1..128
@@ -170,14 +243,15 @@ def search(ctx, disagreements, proof_info):
         for k in range(9, 129):
             if k not in seen:
                 jobs.append((L.job_large, (k, 2, 100), {}))
-    for r in L.run_pool(ctx.seed + 1, jobs, monitor_only=True):
+    for r in L.run_pool(ctx.seed + 1, jobs, monitor_only=True, timeout=100 if ctx.tier == "quick" else 600):
         for d in r["dis"]:
             if d.get("kind") == "monitor" and "data" in d:
                 return {"k": d["k"], "data": d["data"], "flips": d["flips"], "enable": d["enable"],
                         "encoder_out": d.get("codeword"), "decoder_out(o,sec,ded)": d.get("out"), "oracle": d["what"],
                         "format": "flips = bit positions of the n+1-bit code word that were inverted (0 = overall parity bit)"}
-            if d.get("kind") == "elaboration":
-                return {"k": d.get("k"), "oracle": "no encoder/decoder exists for this supported width: " + d["what"]}
+            if d.get("kind") in ("elaboration", "timeout", "exception"):
+                return {"k": d.get("k"), "last_inputs": d.get("last_inputs"),
+                        "oracle": "no usable encoder/decoder for this supported width (%s): %s" % (d["kind"], d["what"])}
     return None
 
 
